@@ -5,6 +5,8 @@ Driver for the `sketch` correspondence stream (C14): parameter strings through t
 they may contain blanks.
 -/
 import SmVerif.Model.SketchParams
+import SmVerif.Model.SketchFeed
+import SmVerif.Model.SketchNames
 import SmVerif.Model.Proto
 
 namespace Sm.DriverSketch
@@ -48,6 +50,134 @@ def showMH (b : MH) : String :=
 
 def showSig (sig : List BT) : String := "|".intercalate (sig.map showSketch)
 
+
+/-! ### `feed`: records through C02's `SeqToHashes` model (Murmur3) into the factory's tree-backed
+sketches and into directly created array-backed ones; the harness replaces `MD5{..}` / `BODY{..}`
+by the digests the adapter prints -/
+
+def unhexBytes (tok : String) : Option (List Nat) := (decode tok).map (fun cs => cs.map Char.toNat)
+
+def input? (s : String) : Option Input :=
+  if s = "dna" then some .dna else if s = "protein" then some .protein else none
+
+def hfOfCode (c : Nat) : Seq.HashFn :=
+  if c = 2 then .protein else if c = 3 then .dayhoff else if c = 4 then .hp else .dna
+
+/-- `P <hex>.. D <spec>.. S <hexseq>..` -/
+def splitFeed (ws : List String) : Option (List (List Char) × List String × List (List Nat)) :=
+  match ws with
+  | "P" :: r =>
+    let ps := r.takeWhile (· ≠ "D")
+    match r.dropWhile (· ≠ "D") with
+    | "D" :: r2 =>
+      let specs := r2.takeWhile (· ≠ "S")
+      match r2.dropWhile (· ≠ "S") with
+      | "S" :: r3 =>
+        match ps.mapM decode, r3.mapM unhexBytes with
+        | some ps, some seqs => some (ps, specs, seqs)
+        | _, _ => none
+      | _ => none
+    | _ => none
+  | _ => none
+
+def bodyOf (mins : List Nat) (abunds : Option (List Nat)) : String :=
+  match abunds with
+  | some ab => ",".intercalate ((mins.zip ab).map (fun p => s!"{p.1}={p.2}"))
+  | none => joinNats mins
+
+def contentRec (v : MH) (d : Digest) : String :=
+  s!"{showMH v}:{v.mins.length}:MD5\{{d.ksize};{joinNats d.mins}}:BODY\{{bodyOf v.mins v.abunds}}"
+
+def stopErr (s : Seq.Stop) : Option String :=
+  match s with
+  | .done => none
+  | .err e => some (match Seq.Py.ofErr e with
+      | .valueError => "ValueError" | .assertionError => "AssertionError" | .panic => "Panic")
+  | .fuel => some "Panic"
+
+/-- `MinHash(n=, ksize=, is_protein=, dayhoff=, hp=, track_abundance=, seed=, scaled=)` from `k:mol:num:scaled:track:seed` -/
+def directOf (spec : String) : Option (Except MH.Err MH) :=
+  match spec.splitOn ":" with
+  | [k, mol, num, scaled, track, seed] =>
+    match nat? k, molOfName mol, nat? num, nat? scaled, bool? track, nat? seed with
+    | some k, some m, some num, some scaled, some track, some seed =>
+      some (Py.mkMinHash num (if m = .dna then k else k * 3) m.hf seed track 0 scaled)
+    | _, _, _, _, _, _ => none
+  | _ => none
+
+def feedLine (dm : Option Mol) (split : Bool) (input : Input) (force : Bool) (ps : List (List Char))
+    (specs : List String) (seqs : List (List Nat)) : String :=
+  let hashS := Murmur3.hashNat
+  let fpart : String :=
+    match factory ps dm split with
+    | .error e => "err " ++ e.name
+    | .ok sigs =>
+      let fed := sigs.map (fun sg => sg.map (fun b => feedBT hashS b (hfOfCode b.hf) input force seqs))
+      match (fed.flatten.filterMap (fun r => stopErr r.2)).head? with
+      | some cls => "FERR " ++ cls
+      | none =>
+        let F := fed.flatten.map (fun r =>
+          let (b', d) := r.1.md5sum
+          contentRec (MH.deserialize b'.serialize.2) d)
+        let M := fed.filterMap (fun sg => sg.head?.map (fun r =>
+          let v := r.1.intoVec
+          contentRec v v.md5sum.2))
+        " ".intercalate F ++ " M " ++ " ".intercalate M
+  let direct := specs.map directOf
+  if direct.any Option.isNone then "bad-op" else
+  let direct := direct.filterMap id
+  let fedD := direct.map (fun x => match x with
+    | .ok v => some (feedMH hashS v (hfOfCode v.hf) input force seqs)
+    | .error _ => none)
+  let dpart : String :=
+    match (fedD.filterMap (fun r => r.bind (fun r => stopErr r.2))).head? with
+    | some cls => "DERR:" ++ cls
+    | none => " ".intercalate (fedD.map (fun r => match r with
+        | some r => contentRec r.1 r.1.md5sum.2
+        | none => "Dexc:ValueError"))
+  "feed F " ++ fpart ++ " D " ++ dpart
+
+
+/-! ### `names`: grouping of records into signatures and their names (`Model/SketchNames.lean`) -/
+
+def hexOfChars (cs : List Char) : String :=
+  if cs.isEmpty then "-" else
+  let hd (n : Nat) : Char := if n < 10 then Char.ofNat (48 + n) else Char.ofNat (87 + n)
+  String.ofList (cs.flatMap (fun c => [hd (c.toNat / 16), hd (c.toNat % 16)]))
+
+def nameMode? (s : String) : Option NameMode :=
+  if s = "file" then some (.perFile false)
+  else if s = "first" then some (.perFile true)
+  else if s = "singleton" then some .singleton
+  else match s.splitOn ":" with
+    | ["merge", nm] => (decode nm).map NameMode.merge
+    | _ => none
+
+/-- `F <fnamehex> <namehex>:<seqhex> ... F ...` -/
+def parseFiles (ws : List String) : Option (List SeqFile) :=
+  -- split at the `F` markers (right to left): (tokens since the last marker, groups so far)
+  let (pre, groups) := ws.foldr (fun w (acc : List String × List (List String)) =>
+    if w = "F" then ([], acc.1 :: acc.2) else (w :: acc.1, acc.2)) ([], [])
+  if !pre.isEmpty then none else
+  groups.mapM (fun g => match g with
+    | fname :: recs =>
+      match decode fname, recs.mapM (fun t => match t.splitOn ":" with
+          | [n, q] => do pure ((← decode n), (← unhexBytes q))
+          | _ => none) with
+      | some fname, some recs => some ⟨fname, recs⟩
+      | _, _ => none
+    | [] => none)
+
+def namesLine (mode : NameMode) (k : Nat) (files : List SeqFile) : String :=
+  let units := plan mode files
+  let one (u : SigUnit) : String :=
+    let p : CP := { ksizes := [k], seed := 42, protein := false, dayhoff := false, hp := false, dna := true,
+                    num := 0, track := false, scaled := 1 }
+    let b := (feedBT Murmur3.hashNat (template p k .dna) .dna .dna true u.records).1
+    let d := b.md5sum.2
+    s!"{hexOfChars (u.name.getD [])}|{hexOfChars u.filename}|MD5\{{d.ksize};{joinNats d.mins}}"
+  "ok " ++ ";".intercalate (units.map one)
+
 def step (st : Unit) (line : String) : Unit × String :=
   let bad := (st, "bad-op")
   match words line with
@@ -75,7 +205,18 @@ def step (st : Unit) (line : String) : Unit × String :=
       | .ok sigs => (st, "ok " ++ ";".intercalate (sigs.map (fun sg => showOpt showMH (firstMh sg))))
       | .error e => (st, "err " ++ e.name)
     | _, _, _ => bad
-  | "feed" :: _ => (st, "feed")
+  | "feed" :: dm :: split :: kind :: force :: rest =>
+    match mol? dm, bool? split, input? kind, bool? force, splitFeed rest with
+    | some dm, some split, some input, some force, some (ps, specs, seqs) => (st, feedLine dm split input force ps specs seqs)
+    | _, _, _, _, _ => bad
+  | "names" :: mode :: k :: rest =>
+    match nameMode? mode, nat? k, parseFiles rest with
+    | some mode, some k, some files => (st, namesLine mode k files)
+    | _, _, _ => bad
+  | ["setname", fname, name] =>
+    match decode fname, (if name = "none" then some none else (decode name).map some) with
+    | some fname, some name => (st, s!"ok {hexOfChars (name.getD [])}|{hexOfChars (recordedFilename fname)}")
+    | _, _ => bad
   | ["cp", ks, seed, pr, dy, hp, dna, num, tr, scaled] =>
     match (ks.splitOn ",").mapM nat?, nats? [seed, num, scaled], [pr, dy, hp, dna, tr].mapM bool? with
     | some ks, some [seed, num, scaled], some [pr, dy, hp, dna, tr] =>
